@@ -256,10 +256,71 @@ pub fn gen_c01(sh: &mut Shards, o: &Opts) -> serde_json::Value {
             }
         }
     }
+    // schedules: 8 threads decoding different configurations at once in a fresh process
+    if !o.mini {
+        if let Ok(o2) = std::process::Command::new(std::env::current_exe().expect("exe")).args(["concworker", "dec", "--seed", &o.seed.to_string()]).stderr(std::process::Stdio::null()).output() {
+            if o2.status.success() {
+                for line in String::from_utf8_lossy(&o2.stdout).lines() {
+                    if line.starts_with("\"ev\"") {
+                        sh.emit(line);
+                    }
+                }
+            } else {
+                sh.emit(&format!("\"ev\":\"dec\",\"probe\":1,\"conc\":[-1,0],\"cfg\":{},\"st\":8,\"w\":1,\"h\":1,\"px\":[],\"res\":\"abort:{}\"", all_matrix_cfgs()[0].0.json(), o2.status.to_string().replace('"', "'")));
+            }
+        }
+    }
     serde_json::json!({"pixels": evals, "configs": cfgs})
 }
 
 fn emit_dec_probe<T: Pixel>(sh: &mut Shards, c: &Cfg, st: u8, px: &[[u16; 3]], w: usize, h: usize, idx: &[usize]) {
+    sh.emit(&dec_probe_body::<T>("", c, st, px, w, h, idx));
+}
+/// SCHEDULES: 8 threads decode different configurations at the same moment in a fresh process (see gen_tf::conc_worker)
+pub fn conc_worker(o: &Opts) {
+    use std::sync::{Arc, Barrier};
+    let nthreads = 8usize;
+    let barrier = Arc::new(Barrier::new(nthreads));
+    let seed = o.seed;
+    let cfgs = all_matrix_cfgs();
+    let handles: Vec<_> = (0..nthreads)
+        .map(|j| {
+            let b = barrier.clone();
+            let (c, st) = cfgs[(j * 37 + (seed as usize) * 5) % cfgs.len()];
+            std::thread::spawn(move || {
+                let mut rng = Rng::new(seed, 0x0101_c0c0 + j as u64);
+                let (w, h) = [(250usize, 164usize), (322, 128)][j % 2];
+                let c = Cfg { ssx: [0u8, 1, 1, 0][j % 4], ssy: [0u8, 1, 0, 1][j % 4], ..c };
+                let maxc = (1u64 << c.n) - 1;
+                let px: Vec<[u16; 3]> = (0..w * h).map(|_| [rng.below(maxc + 1) as u16, rng.below(maxc + 1) as u16, rng.below(maxc + 1) as u16]).collect();
+                let mut idx: Vec<usize> = (0..6).chain(w * h - 6..w * h).collect();
+                for _ in 0..16 {
+                    idx.push(rng.below((w * h) as u64) as usize);
+                }
+                idx.sort_unstable();
+                idx.dedup();
+                let mut out = Vec::new();
+                b.wait();
+                for round in 0..2 {
+                    let extra = format!("\"conc\":[{j},{round}],");
+                    out.push(if st == 8 { dec_probe_body::<u8>(&extra, &c, st, &px, w, h, &idx) } else { dec_probe_body::<u16>(&extra, &c, st, &px, w, h, &idx) });
+                }
+                out
+            })
+        })
+        .collect();
+    let stdout = std::io::stdout();
+    let mut lock = stdout.lock();
+    use std::io::Write as _;
+    for hd in handles {
+        if let Ok(lines) = hd.join() {
+            for s in lines {
+                let _ = writeln!(lock, "{s}");
+            }
+        }
+    }
+}
+fn dec_probe_body<T: Pixel>(extra: &str, c: &Cfg, st: u8, px: &[[u16; 3]], w: usize, h: usize, idx: &[usize]) -> String {
     // the triple a pixel's result may depend on: its own luma and the chroma sample of its block (the top-left pixel's)
     let eff = |i: usize| -> [u16; 3] {
         let (x, y) = (i % w, i / w);
@@ -298,7 +359,7 @@ fn emit_dec_probe<T: Pixel>(sh: &mut Shards, c: &Cfg, st: u8, px: &[[u16; 3]], w
     }
     let sel: Vec<[u16; 3]> = idx.iter().map(|&i| eff(i)).collect();
     let mut s = String::new();
-    let _ = write!(s, "\"ev\":\"dec\",\"probe\":1,\"cfg\":{},\"st\":{st},\"w\":{w},\"h\":{h},\"px\":", c.json());
+    let _ = write!(s, "\"ev\":\"dec\",\"probe\":1,{extra}\"cfg\":{},\"st\":{st},\"w\":{w},\"h\":{h},\"px\":", c.json());
     list(&mut s, &sel, |o, p| {
         let _ = write!(o, "[{},{},{}]", p[0], p[1], p[2]);
     });
@@ -313,7 +374,7 @@ fn emit_dec_probe<T: Pixel>(sh: &mut Shards, c: &Cfg, st: u8, px: &[[u16; 3]], w
             let _ = write!(s, ",\"res\":\"{e}\"");
         }
     }
-    sh.emit(&s);
+    s
 }
 
 // ---------------------------------------------------------------------------------------------
